@@ -20,7 +20,6 @@ for e in exp:
     if r.returncode != 0:
         print(f'SKIP {name}: patch does not apply: {r.stderr.strip()[:200]}'); bad += 1; continue
     try:
-        b = sh('cd /repo && GOFLAGS=-mod=mod GOPROXY=off GOSUMDB=off go build ./... 2>&1 | head -5')
         outs = []
         ok = True
         for prop in e['property'] if isinstance(e['property'], list) else [e['property']]:
